@@ -5,7 +5,6 @@ from run import Ob
 
 BS = 'data_mgr/ByteString.cpp'
 MAC_REAL = ['crypto/OSSLEVPMacAlgorithm.cpp', 'crypto/OSSLEVPCMacAlgorithm.cpp', 'crypto/MacAlgorithm.cpp', 'crypto/SymmetricKey.cpp', BS]
-_BYTE_LOOPS = r'ByteString|ir_mem|memcmp|vector|model_mac|mac_ctx'
 
 
 def _mac(kind, cmac):
@@ -24,7 +23,7 @@ MODES = {'cbc': 1, 'cfb': 2, 'ctr': 3, 'ecb': 4, 'gcm': 5, 'ofb': 6}
 
 
 def _cipher(name, op, mode, desc, bounds, extra=None, **kw):
-    d = {'OP': op, 'MODE': MODES[mode], 'BS_CAP': 12, 'BLK': 2, 'MSGCAP': 4, 'TAGCAP': 2, 'AADCAP': 2, 'INCAP': 7, 'EVP_RECORD_INPUT': 1 if op == 2 else 0}
+    d = {'OP': op, 'MODE': MODES[mode], 'BS_CAP': 8, 'BLK': 2, 'MSGCAP': 4, 'TAGCAP': 2, 'AADCAP': 2, 'INCAP': 7, 'EVP_RECORD_INPUT': 1 if op == 2 else 0}
     d.update(extra or {})
     return Ob(name, 'C10/cipher_unit.cpp', CIPHER_REAL, defines=d, unwind=16, caps='C10/caps.h',
               desc='OSSLEVPSymmetricAlgorithm (real; subclass with a model cipher of block size 2, mode %s) ' % mode.upper() + desc, bounds=bounds, **kw)
@@ -48,22 +47,54 @@ def register(reg):
     for m in ('cbc', 'ecb', 'ctr'):
         obs.append(_cipher('sym_decrypt_' + m, 1, m, 'decryptInit + <= 3 decryptUpdate + decryptFinal: accepted iff the model accepts the whole input (alignment, PKCS#7), concatenated output == model plaintext of the whole input, for every split',
                            'input 0..4 symbolic bytes (two blocks) in <= 3 parts (all splits), key / IV / padding flag symbolic'))
-    obs.append(_cipher('gcm_decrypt', 2, 'gcm', 'GCM decrypt: updates hand nothing to the primitive and return nothing; decryptFinal refuses input shorter than the tag, else exactly the first n - tagBytes bytes are the ciphertext and exactly the last tagBytes bytes the expected tag; result == tag verdict of the model (any changed bit of ciphertext, tag, AAD, IV: refused); accepted => plaintext of exactly those bytes',
-                       'input 0..6 symbolic bytes in <= 3 parts (all splits), tag 1..2 bytes, IV 0..2 bytes, AAD 0..2 bytes'))
+    # GCM decrypt in two layers (decryptFinal depends on the updates only through the state that the first layer pins down)
+    obs.append(_cipher('gcm_decrypt_buffer', 2, 'gcm', 'GCM decryptInit + <= 3 decryptUpdate, every split: no update hands data to the primitive or returns plaintext; afterwards the AEAD buffer is exactly the whole input in order and buffer size / tag length / mode / context are what decryptFinal expects',
+                       'input 0..6 symbolic bytes in <= 3 parts (all splits), tag 1..2 bytes, IV 0..2 bytes, AAD 0..2 bytes', extra={'GCMPHASE': 1}))
+    obs.append(_cipher('gcm_decrypt_final', 2, 'gcm', 'GCM decryptFinal (after one update with the whole input): input shorter than the tag refused without touching the primitive; else exactly the first n - tagBytes bytes are the ciphertext and exactly the last tagBytes bytes the expected tag; result == tag verdict of the model (any changed bit of ciphertext, tag, AAD, IV: refused); accepted => plaintext of exactly those bytes',
+                       'input 0..6 symbolic bytes, tag 1..2 bytes, IV 0..2 bytes, AAD 0..2 bytes', extra={'GCMPHASE': 2}))
     for dr, dn in ((0, 'enc'), (1, 'dec')):
-      obs.append(_cipher('ctr_counter_budget_' + dn, 5, 'ctr', 'counter budget: checkMaximumBytes(b) == (processed + b <= (2^counterBits - counter field of the IV) * block size), before and after <= 2 updates, encrypt and decrypt; always true for counterBits == 0',
-                       'counterBits 0..8, IV 2 symbolic bytes, <= 4 bytes processed in <= 2 updates, b < 2^32; BN_* modelled over 64-bit integers', extra={'DIR': dr}))
+        obs.append(_cipher('ctr_counter_budget_' + dn, 5, 'ctr', 'counter budget: checkMaximumBytes(b) == (processed + b <= (2^counterBits - counter field of the IV) * block size), before and after <= 2 updates, encrypt and decrypt; always true for counterBits == 0',
+                           'counterBits 0..8, IV 2 symbolic bytes, <= 4 bytes processed in <= 2 updates, b < 2^32; BN_* modelled over 64-bit integers', extra={'DIR': dr}))
     for m in ('cbc', 'gcm'):
         obs.append(_cipher('sym_state_' + m, 6, m, 'state machine: update/final without init fail without reaching the primitive; an IV that is neither empty nor one block is refused (non-GCM) before the primitive is touched; second init refused, operation undisturbed; after final the operation is gone and the context released once',
                            'IV 0..2 bytes (every length), one 1-byte part; %s direction' % ('encrypt' if m == 'cbc' else 'decrypt'), extra={'DIR': 0 if m == 'cbc' else 1}))
     for (n, op, m) in (('sym_fail_encrypt_cbc', 0, 'cbc'), ('sym_fail_decrypt_cbc', 1, 'cbc'), ('sym_fail_encrypt_gcm', 0, 'gcm'), ('gcm_fail_decrypt', 2, 'gcm')):
         obs.append(_cipher(n, op, m, 'with a failing primitive (Init / Update incl. the AAD update / Final fail symbolically): the call returns false, the operation is gone, the context is released exactly once, nothing else reaches the primitive; otherwise the same result as without failures',
                            'split 1 + 0 + 3 bytes (GCM decrypt: 1 + 0 + 3 incl. tag); everything else as in the obligation without failures', extra={'FAILS': 1, 'L0': 1, 'L1': 0, 'L2': 3}))
+    obs.append(Ob('rsa_verify', 'C10/rsa_unit.cpp', ['crypto/OSSLRSA.cpp', 'crypto/RSAPublicKey.cpp', 'crypto/AsymmetricAlgorithm.cpp', BS], defines={'OP': 0, 'BS_CAP': 6, 'NMOD': 4}, unwind=8, caps='C10/caps.h',
+                  desc='OSSLRSA::verify (real) for CKM_RSA_PKCS and raw RSA over the documented contract of RSA_public_decrypt: accepted iff the primitive succeeds and the recovered data equals the expected data in length and in every byte (a proper prefix either way, a changed byte, a failing primitive: rejected); the primitive gets exactly the caller\'s signature bytes and length, the given key and the padding mode of the mechanism; a key of another type is refused before the primitive',
+                  bounds='modulus 4 bytes; expected data and signature 0..6 symbolic bytes; recovered data (length 0..3 for PKCS#1, 4 raw), its bytes and the unspecified rest of the output buffer symbolic'))
+    obs.append(Ob('asym_compose', 'C10/rsa_unit.cpp', ['crypto/AsymmetricAlgorithm.cpp', BS], defines={'OP': 1, 'BS_CAP': 6}, unwind=8, caps='C10/caps.h',
+                  desc='AsymmetricAlgorithm::sign / verify (real default single-part implementations: DSA, ECDSA, EdDSA, hashing RSA mechanisms) == init(key, mechanism, parameters) && update(whole data, once) && final(caller\'s signature), short-circuit: single-part == multi-part with one part',
+                  bounds='data and signature 0..6 symbolic bytes, mechanism 0..31, results of the three steps symbolic'))
+    obs.append(Ob('alg_select', 'C10/select_unit.cpp', ['crypto/OSSLAES.cpp', 'crypto/OSSLDES.cpp', 'crypto/OSSLHMAC.cpp', 'crypto/OSSLCMAC.cpp', 'crypto/SymmetricKey.cpp', BS], defines={'BS_CAP': 4}, unwind=6, caps='C10/caps.h',
+                  desc='algorithm selection (real OSSLAES/OSSLDES::getCipher, OSSLHMAC*::getEVPHash/getMacSize, OSSLCMAC*::getEVPCipher/getMacSize): for every key bit length and every cipher mode the EVP cipher / digest selected is the one of the mechanism (AES-128/192/256 x CBC/ECB/CTR/GCM, DES/2-key/3-key x CBC/ECB/OFB/CFB, CMAC = CBC cipher of the key size, HMAC digest with MAC size = digest size), NULL for everything else',
+                  bounds='key bit length: all 2^64 values; mode 0..7; EVP getters are descriptors'))
     for cmac in (0, 1):
         for kind in ('sign', 'verify', 'state'):
             obs.append(_mac(kind, cmac))
+    # thorough tier: block size 4, messages up to 6 / 8 / 9 bytes, split shapes pinned (values symbolic)
+    big = {'BLK': 4, 'MSGCAP': 6, 'TAGCAP': 3, 'AADCAP': 3, 'INCAP': 10, 'BS_CAP': 18}
+    for (l0, l1, l2) in ((1, 0, 5), (3, 3, 0), (4, 1, 1), (0, 6, 0), (2, 2, 2), (5, 0, 1), (0, 0, 0), (1, 1, 1)):
+        for (n, op, m) in (('sym_encrypt_cbc', 0, 'cbc'), ('sym_decrypt_cbc', 1, 'cbc'), ('sym_encrypt_gcm', 0, 'gcm'), ('gcm_decrypt', 2, 'gcm')):
+            e = dict(big); e.update({'L0': l0, 'L1': l1, 'L2': l2 + (2 if (op == 1 and l0 + l1 + l2 == 6) else 0)})
+            o = _cipher('%s_b4_%d_%d_%d' % (n, l0, l1, e['L2']), op, m, 'block size 4, split %d + %d + %d: same claim as %s' % (l0, l1, e['L2'], n), 'split shape fixed, all byte values / IV / AAD / tag length / padding flag symbolic', extra=e, tiers=('thorough',))
+            o.unwind = 22
+            obs.append(o)
+    # recorded observation (not in the quick / thorough tiers): run with --tier finding
+    obs.append(Ob('cmac_init_nocipher', 'C10/mac_unit.cpp', MAC_REAL, defines={'OP': 3, 'CMAC': 1, 'BS_CAP': 8, 'MSGCAP': 4}, unwind=10, caps='C10/caps.h', tiers=('finding',),
+                  desc='OSSLEVPCMacAlgorithm::signInit / verifyInit refused because getEVPCipher() is NULL (key length without a cipher) must leave no operation: verifyInit calls MacAlgorithm::signFinal instead of verifyFinal and stays in state VERIFY with a NULL context (a later verifyUpdate would hand NULL to CMAC_Update). Not reachable through SoftHSM.cpp, which recycles the object after a failed init',
+                  bounds='one call'))
     reg.OBLIGATIONS['C10'] = obs
+    # C13 (a derived key has exactly the value the mechanism defines): the shared secret is left-padded to the group size
+    reg.OBLIGATIONS['C13'] = reg.OBLIGATIONS['C13'] + [o for o in obs if o.name.endswith('_derive_padding')]
     reg.META['C10'] = dict(
-        outside='the arithmetic of OpenSSL (AES, DES, SHA, HMAC, CMAC, GCM, RSA ...: binary code, replaced by functional models) and hence equality with an independent implementation of the standards',
-        assumptions=['functional models of the OpenSSL C API in harness/C10/*_model.h (contracts from the OpenSSL 3.0 manual pages)'],
-        claim='glue only', note='', technique='P-UNIT over functional models')
+        level='model_checking',
+        claim='PARTIAL: only the part of C10 that lives in SoftHSM\'s own code - the glue between the crypto abstraction classes and the OpenSSL C API - is claimed: byte streams (every byte once, in order, any split == single part), parameters (key, IV, AAD, tag, padding, counter width) handed over unmodified, buffering of block / AEAD data, placement and comparison of MACs / tags / recovered signatures (lengths included), left-padding of derived secrets, selection of the EVP algorithm per key size and mode, operation state. That the primitives compute AES, SHA, RSA ... as the standards say is NOT claimed',
+        outside='the arithmetic of OpenSSL (AES, DES, SHA, HMAC, CMAC, GCM, RSA, DH, EC: binary code, replaced by the functional models named in the assumptions) and therefore equality with an independent implementation of the standards; messages / keys / IVs longer than the stated bounds (model block size 2, thorough tier 4; real block sizes 8 / 16 only through the pure size arithmetic of the wrapper); splits into more than 3 parts; the hashing RSA / DSA / ECDSA / EdDSA sign and verify bodies, RSA-PSS / OAEP parameter handling, OSSLEVPHashAlgorithm, DER helpers, AES key wrap, the Botan back end; the mechanism -> algorithm / parameter parsing in SoftHSM.cpp (Sym*/Asym*/Mac*Init: covered for guards by C07/C12, not for parameter values); allocation failures of OpenSSL objects',
+        assumptions=['functional model of HMAC_* / CMAC_* (harness/C10/mac_model.h): deterministic MAC injective in (message bytes, their positions, length) and sensitive to every key byte; OpenSSL 3.0 manual page contract for return values and output lengths',
+                     'functional model of the EVP cipher API and of BN_* over 64-bit integers (harness/C10/evp_model.h): position-dependent xor stream; EVP buffering contract for block / stream / GCM modes, PKCS#7 in the primitive, GCM tag = function of key, IV, AAD, every ciphertext byte and the lengths; DecryptFinal fails iff the installed tag differs in any byte',
+                     'documented contracts of DH_compute_key / ECDH_compute_key / EVP_PKEY_derive (X25519, X448) and RSA_public_decrypt with symbolic results (harness/C10/derive_unit.cpp, rsa_unit.cpp); key wrapper accessors (getOSSLKey, getOrderLength, isOfType) are models',
+                     'EVP_aes_* / EVP_des_* / EVP_<digest> getters are descriptors (harness/C10/select_unit.cpp)'],
+        note='recorded observations (not violations of C10 at the PKCS#11 interface): (1) OSSLEVPCMacAlgorithm::verifyInit with a key length that has no cipher calls MacAlgorithm::signFinal instead of verifyFinal and stays in state VERIFY with a NULL context (obligation cmac_init_nocipher, tier finding; SoftHSM.cpp recycles the object after a failed init). (2) OSSLEVPSymmetricAlgorithm::decryptFinal leaves the unauthenticated GCM plaintext in its output parameter when the tag check fails; it returns false and SoftHSM.cpp copies nothing on false. (3) a call of the wrong direction (e.g. decryptUpdate on an encrypt operation) frees the EVP context but leaves the operation active; SoftHSM.cpp checks the operation type first. (4) HMAC_CTX_new / CMAC_CTX_new returning NULL leaves the operation active with a NULL context',
+        technique='P-UNIT: real wrapper classes in isolation over functional models of the OpenSSL C API written in the harness TU; all splits of the message symbolic in the quick tier (block size 2), pinned split shapes with block size 4 in the thorough tier')
